@@ -342,3 +342,822 @@ Proof.
   - intros h Hh. rewrite He. apply (inv_nonusers _ I h Hh).
   - unfold opts_of. rewrite Hc. apply (inv_opts _ I).
 Qed.
+
+(** ------------------------------------------------------------------ ledger bookkeeping tactics *)
+Ltac ledger_facts :=
+  repeat match goal with
+  | H : debit _ _ _ _ = Ok _ |- _ => apply ldelta_debit in H
+  | H : debit_all _ _ _ = Ok _ |- _ => apply ldelta_debit_all in H
+  end;
+  repeat match goal with
+  | |- context [credit ?l ?h ?e ?a] =>
+      let x := fresh "bal" in let Hx := fresh "Hc" in
+      pose proof (ldelta_credit l h e a) as Hx; set (x := credit l h e a) in *; clearbody x
+  | |- context [credit_all ?l ?h ?ps] =>
+      let x := fresh "bal" in let Hx := fresh "Hc" in
+      pose proof (ldelta_credit_all ps l h) as Hx; set (x := credit_all l h ps) in *; clearbody x
+  | H : context [credit ?l ?h ?e ?a] |- _ =>
+      let x := fresh "bal" in let Hx := fresh "Hc" in
+      pose proof (ldelta_credit l h e a) as Hx; set (x := credit l h e a) in *; clearbody x
+  | H : context [credit_all ?l ?h ?ps] |- _ =>
+      let x := fresh "bal" in let Hx := fresh "Hc" in
+      pose proof (ldelta_credit_all ps l h) as Hx; set (x := credit_all l h ps) in *; clearbody x
+  end.
+
+Ltac at_holder v :=
+  repeat match goal with
+  | H : ldelta _ _ _ _ _ |- _ =>
+      let A := fresh "A" in let B := fresh "B" in destruct (H v) as [A B]; clear H
+  end;
+  repeat match goal with
+  | H : context [if ?b then _ else _] |- _ => let E := fresh "E" in destruct b eqn:E
+  end; zb; unfold H_UNSTAKE, H_XFER, H_WRAP in *.
+
+Ltac proj := cbn [s_cfg s_now s_en s_bal s_unb s_xf s_slast s_rlast s_wbal set_bal set_en set_unb set_xf
+                  set_slast set_rlast set_wbal set_now put_entry].
+
+(** ------------------------------------------------------------------ every endpoint preserves the invariant *)
+Lemma ep_lock_inv s amt le dest s' o :
+  EnergyInv s -> 0 < dest -> ep_lock s amt le dest = Ok (s', o) -> EnergyInv s'.
+Proof.
+  intros I Hd H. unfold ep_lock in H. inv_ok H. zb.
+  rewrite lock_tokens_future by assumption.
+  pose proof (entry_fresh s dest I Hd) as F.
+  apply (add_lock_fresh _ _ _ _ amt (som (s_now s + le))) in F; [|lia|lia].
+  eapply (inv_update s _ dest); try reflexivity; auto; proj;
+    try (apply (inv_unb _ I)); try (apply (inv_xf _ I)).
+  - intros v Hv Hne. ledger_facts. at_holder v; lia.
+  - ledger_facts. at_holder dest; try lia. eapply fresh_ext; [exact F | lia | lia].
+Qed.
+
+Lemma ep_extend_inv s u e amt le dest s' o :
+  EnergyInv s -> 0 < u -> ep_extend s u e amt le dest = Ok (s', o) -> EnergyInv s'.
+Proof.
+  intros I Hu H. unfold ep_extend in H. inv_ok H. zb. subst dest.
+  rewrite lock_tokens_future by assumption.
+  pose proof (entry_fresh s u I Hu) as F.
+  eapply change_fresh in F; [| | |eassumption]; [|lia|lia].
+  eapply (inv_update s _ u); try reflexivity; auto; proj;
+    try (apply (inv_unb _ I)); try (apply (inv_xf _ I)).
+  - intros v Hv Hne. ledger_facts. at_holder v; lia.
+  - ledger_facts. at_holder u; try lia. eapply fresh_ext; [exact F | lia | lia].
+Qed.
+
+Lemma ep_unlock_inv s c ps s' o :
+  EnergyInv s -> 0 < c -> ep_unlock s c ps = Ok (s', o) -> EnergyInv s'.
+Proof.
+  intros I Hu H. unfold ep_unlock in H. inv_ok H.
+  pose proof (entry_fresh s c I Hu) as F.
+  eapply unlock_loop_fresh in F; [|eassumption].
+  eapply (inv_update s _ c); try reflexivity; auto; proj;
+    try (apply (inv_unb _ I)); try (apply (inv_xf _ I)).
+  - intros v Hv Hne. ledger_facts. at_holder v; lia.
+  - ledger_facts. at_holder c; try lia. eapply fresh_ext; [exact F | lia | lia].
+Qed.
+
+Lemma ep_merge_spec s u ps s' o :
+  EnergyInv s -> 0 < u -> ep_merge s u ps = Ok (s', o) ->
+  EnergyInv s' /\ exists ne ma, o = [ne; ma] /\ s_now s < ne /\ 0 < ma.
+Proof.
+  intros I Hu H. unfold ep_merge in H.
+  apply bind_ok in H. destruct H as (bal1 & Hd & H).
+  destruct (forallb (fun p => 0 <? snd p) ps) eqn:Hpos; [|discriminate].
+  destruct ps as [|[e0 a0] t]; [discriminate|].
+  inv_ok H. clear E0. zb.
+  change (forallb (fun p => 0 <? snd p) ((e0, a0) :: t)) with (all_pos ((e0, a0) :: t)) in Hpos.
+  unfold all_pos in Hpos. simpl in Hpos. apply andb_true_iff in Hpos. destruct Hpos as [Pa Pt]. zb.
+  pose proof (entry_fresh s u I Hu) as F.
+  eapply any_fresh in F; [|eassumption].
+  destruct (merge_loop_spec _ _ _ _ _ _ _ _ _ _ F E Pa Pt Hb0) as (F2 & Hme & Hma & Hmp).
+  destruct (valid_opts_facts _ (inv_opts _ I)) as (_ & HL & _).
+  assert (Hne : s_now s < som_upper (opts_of s) (s_now s) z0).
+  { apply som_upper_future; [pose proof month_le_year; lia | exact Hme]. }
+  rewrite lock_tokens_future by assumption.
+  apply (add_lock_fresh _ _ _ _ z (som_upper (opts_of s) (s_now s) z0)) in F2; [|lia|lia].
+  split; [|eauto 6].
+  eapply (inv_update s _ u); try reflexivity; auto; proj;
+    try (apply (inv_unb _ I)); try (apply (inv_xf _ I)).
+  - intros v Hv Hne'. ledger_facts. at_holder v; lia.
+  - ledger_facts. at_holder u; try lia. simpl in *. eapply fresh_ext; [exact F2 | lia | lia].
+Qed.
+
+Lemma reduce_common_spec s c e amt ole en1 nle lft :
+  EnergyInv s -> 0 < c -> reduce_common s c e amt ole = Ok (en1, nle, lft) ->
+  fresh en1 (lweight (s_bal s) c - amt * e) (ltotal (s_bal s) c - amt) (s_now s) /\
+  0 < lft /\ 0 < amt /\ s_now s < e /\
+  match ole with
+  | Some le => listed (opts_of s) le = true -> 0 < nle /\ s_now s + nle = som (s_now s + le)
+  | None => nle = 0
+  end.
+Proof.
+  intros I Hc H. unfold reduce_common in H. inv_ok H. zb.
+  split; [eapply early_fresh; [apply entry_fresh; auto | lia | eassumption]|].
+  split; [lia|]. split; [lia|]. split; [lia|].
+  destruct ole as [le|].
+  - intros Hl. apply sub_chk_ok in Hb. destruct Hb as [_ ->].
+    destruct (valid_opts_facts _ (inv_opts _ I)) as (_ & _ & HY). specialize (HY _ Hl).
+    pose proof (som_bounds (s_now s + le)). pose proof month_le_year. lia.
+  - inversion Hb. reflexivity.
+Qed.
+
+Lemma ep_unlock_early_inv s c e amt s' o :
+  EnergyInv s -> 0 < c -> ep_unlock_early s c e amt = Ok (s', o) -> EnergyInv s'.
+Proof.
+  intros I Hc H. unfold ep_unlock_early in H.
+  apply bind_ok in H. destruct H as (bal0 & Hd & H).
+  apply bind_ok in H. destruct H as ([[en1 nle] lft] & Hr & H). inversion H; subst s' o; clear H.
+  destruct (reduce_common_spec _ _ _ _ _ _ _ _ I Hc Hr) as (F & Hl & Ha & He & _).
+  eapply (inv_update s _ c); try reflexivity; auto; proj; try (apply (inv_xf _ I)).
+  - intros v Hv Hne. ledger_facts. at_holder v; lia.
+  - ledger_facts. at_holder c; try lia. eapply fresh_ext; [exact F | lia | lia].
+  - apply Forall_app. split; [apply (inv_unb _ I)|]. constructor; [simpl; lia | constructor].
+Qed.
+
+Lemma ep_reduce_spec s c e amt le s' o :
+  EnergyInv s -> 0 < c -> ep_reduce s c e amt le = Ok (s', o) ->
+  EnergyInv s' /\ exists ne ma, o = [ne; ma] /\ s_now s < ne /\ 0 < ma.
+Proof.
+  intros I Hc H. unfold ep_reduce in H.
+  destruct (listed (opts_of s) le) eqn:Hl; [|discriminate].
+  apply bind_ok in H. destruct H as (bal0 & Hd & H).
+  apply bind_ok in H. destruct H as ([[en1 nle] lft] & Hr & H). inversion H; subst s' o; clear H.
+  destruct (reduce_common_spec _ _ _ _ _ _ _ _ I Hc Hr) as (F & Hlf & Ha & He & Hn).
+  destruct (Hn Hl) as [Hn1 Hn2].
+  rewrite lock_tokens_future by lia.
+  apply (add_lock_fresh _ _ _ _ lft (s_now s + nle)) in F; [|lia|lia].
+  split; [|exists (s_now s + nle), lft; repeat split; lia].
+  eapply (inv_update s _ c); try reflexivity; auto; proj;
+    try (apply (inv_unb _ I)); try (apply (inv_xf _ I)).
+  - intros v Hv Hne. ledger_facts. at_holder v; lia.
+  - ledger_facts. at_holder c; try lia. eapply fresh_ext; [exact F | lia | lia].
+Qed.
+
+Lemma claim_scan_kept (P : Z * unbond -> Prop) l : forall u now fuel stopped,
+  Forall P l -> Forall P (fst (claim_scan l u now fuel stopped)).
+Proof.
+  induction l as [|[k ub] t IH]; simpl; intros u now fuel stopped H; [constructor|].
+  inversion H as [|? ? Hh Ht]; subst.
+  destruct (negb (k =? u)).
+  - specialize (IH u now fuel stopped Ht). destruct (claim_scan t u now fuel stopped). simpl in *. constructor; auto.
+  - destruct stopped.
+    + specialize (IH u now fuel true Ht). destruct (claim_scan t u now fuel true). simpl in *. constructor; auto.
+    + destruct fuel as [|f].
+      * specialize (IH u now O true Ht). destruct (claim_scan t u now O true). simpl in *. constructor; auto.
+      * destruct (now <? ub_at ub).
+        -- specialize (IH u now (S f) true Ht). destruct (claim_scan t u now (S f) true). simpl in *. constructor; auto.
+        -- specialize (IH u now f false Ht). destruct (claim_scan t u now f false). simpl in *. auto.
+Qed.
+
+Lemma ep_claim_inv s c s' o : EnergyInv s -> ep_claim s c = Ok (s', o) -> EnergyInv s'.
+Proof.
+  intros I H. unfold ep_claim in H.
+  pose proof (claim_scan_kept _ (s_unb s) c (s_now s) (Z.to_nat MAX_CLAIM_UNLOCKED_TOKENS) false (inv_unb _ I)) as K.
+  destruct (claim_scan (s_unb s) c (s_now s) (Z.to_nat MAX_CLAIM_UNLOCKED_TOKENS) false) as [kept got].
+  inv_ok H. simpl in K.
+  eapply (inv_frame s); try reflexivity; auto; proj; try lia; try (apply (inv_xf _ I)); auto.
+  intros v Hv. ledger_facts. at_holder v; lia.
+Qed.
+
+Lemma queue_pos s c : EnergyInv s -> Forall (fun ub => 0 < ub_locked ub) (queue_of (s_unb s) c).
+Proof.
+  intros I. unfold queue_of. apply Forall_forall. intros ub Hin.
+  apply in_map_iff in Hin. destruct Hin as ([k ub'] & <- & Hin). apply filter_In in Hin. destruct Hin as [Hin _].
+  pose proof (inv_unb _ I) as U. rewrite Forall_forall in U. exact (U _ Hin).
+Qed.
+
+Lemma Forall_filter_keep {A} (P : A -> Prop) f l : Forall P l -> Forall P (filter f l).
+Proof.
+  intros H. apply Forall_forall. intros x Hin. apply filter_In in Hin. destruct Hin as [Hin _].
+  rewrite Forall_forall in H. auto.
+Qed.
+
+Lemma ep_cancel_unbond_inv s c s' o :
+  EnergyInv s -> 0 < c -> ep_cancel_unbond s c = Ok (s', o) -> EnergyInv s'.
+Proof.
+  intros I Hc H. unfold ep_cancel_unbond in H. inv_ok H.
+  pose proof (entry_fresh s c I Hc) as F.
+  eapply cancel_loop_fresh in F; [| apply queue_pos; exact I | eassumption].
+  change (map (fun ub => (ub_e ub, ub_locked ub)) (queue_of (s_unb s) c)) with (map ub_pay (queue_of (s_unb s) c)) in *.
+  eapply (inv_update s _ c); try reflexivity; auto; proj; try (apply (inv_xf _ I)).
+  - intros v Hv Hne. ledger_facts. at_holder v; lia.
+  - ledger_facts. at_holder c; try lia. eapply fresh_ext; [exact F | lia | lia].
+  - apply Forall_filter_keep. apply (inv_unb _ I).
+Qed.
+
+Lemma find_xf_pos s r sd x : EnergyInv s -> find_xf (s_xf s) r sd = Some x -> all_pos (xf_funds x) = true.
+Proof.
+  intros I H. unfold find_xf in H. apply find_some in H. destruct H as [Hin _].
+  pose proof (inv_xf _ I) as X. rewrite Forall_forall in X. exact (X _ Hin).
+Qed.
+
+Lemma ep_lock_funds_inv s sender receiver ps s' o :
+  EnergyInv s -> 0 < sender -> ep_lock_funds s sender receiver ps = Ok (s', o) -> EnergyInv s'.
+Proof.
+  intros I Hc H. unfold ep_lock_funds in H.
+  apply bind_ok in H. destruct H as (bal1 & Hd & H).
+  destruct (forallb (fun p => 0 <? snd p) ps) eqn:Hpos; [|discriminate].
+  inv_ok H.
+  pose proof (entry_fresh s sender I Hc) as F.
+  eapply deduct_loop_fresh in F; [|eassumption].
+  eapply (inv_update s _ sender); try reflexivity; auto; proj; try (apply (inv_unb _ I)).
+  - intros v Hv Hne. ledger_facts. at_holder v; lia.
+  - ledger_facts. at_holder sender; try lia. eapply fresh_ext; [exact F | lia | lia].
+  - apply Forall_app. split; [apply (inv_xf _ I)|]. constructor; [exact Hpos | constructor].
+Qed.
+
+Lemma ep_withdraw_inv s receiver sender s' o :
+  EnergyInv s -> 0 < receiver -> ep_withdraw s receiver sender = Ok (s', o) -> EnergyInv s'.
+Proof.
+  intros I Hc H. unfold ep_withdraw in H.
+  destruct (negb (on_cooldown s (aget (s_rlast s) receiver))); [|discriminate].
+  destruct (find_xf (s_xf s) receiver sender) as [x|] eqn:Hf; [|discriminate].
+  pose proof (find_xf_pos _ _ _ _ I Hf) as Hpos.
+  inv_ok H.
+  pose proof (entry_fresh s receiver I Hc) as F.
+  eapply add_dest_loop_fresh in F; [| exact Hpos | eassumption].
+  eapply (inv_update s _ receiver); try reflexivity; auto; proj; try (apply (inv_unb _ I)).
+  - intros v Hv Hne. ledger_facts. at_holder v; lia.
+  - ledger_facts. at_holder receiver; try lia. eapply fresh_ext; [exact F | lia | lia].
+  - apply Forall_filter_keep. apply (inv_xf _ I).
+Qed.
+
+Lemma ep_cancel_transfer_inv s c sender receiver s' o :
+  EnergyInv s -> 0 < sender -> ep_cancel_transfer s c sender receiver = Ok (s', o) -> EnergyInv s'.
+Proof.
+  intros I Hc H. unfold ep_cancel_transfer in H.
+  destruct (c =? ADMIN); [|discriminate].
+  destruct (find_xf (s_xf s) receiver sender) as [x|] eqn:Hf; [|discriminate].
+  pose proof (find_xf_pos _ _ _ _ I Hf) as Hpos.
+  inv_ok H.
+  pose proof (entry_fresh s sender I Hc) as F.
+  eapply add_dest_loop_fresh in F; [| exact Hpos | eassumption].
+  eapply (inv_update s _ sender); try reflexivity; auto; proj; try (apply (inv_unb _ I)).
+  - intros v Hv Hne. ledger_facts. at_holder v; lia.
+  - ledger_facts. at_holder sender; try lia. eapply fresh_ext; [exact F | lia | lia].
+  - apply Forall_filter_keep. apply (inv_xf _ I).
+Qed.
+
+Lemma ep_wrap_inv s c e amt s' o :
+  EnergyInv s -> 0 < c -> ep_wrap s c e amt = Ok (s', o) -> EnergyInv s'.
+Proof.
+  intros I Hc H. unfold ep_wrap in H.
+  apply bind_ok in H. destruct H as (bal0 & Hd & H).
+  destruct (0 <? amt) eqn:Ha; [|discriminate].
+  apply bind_ok in H. destruct H as (en1 & Hl & H). inversion H; subst s' o; clear H.
+  pose proof (entry_fresh s c I Hc) as F.
+  eapply deduct_loop_fresh in F; [|eassumption]. simpl in F.
+  eapply (inv_update s _ c); try reflexivity; auto; proj;
+    try (apply (inv_unb _ I)); try (apply (inv_xf _ I)).
+  - intros v Hv Hne. ledger_facts. at_holder v; lia.
+  - ledger_facts. at_holder c; try lia. eapply fresh_ext; [exact F | lia | lia].
+Qed.
+
+Lemma ep_unwrap_inv s c e amt s' o :
+  EnergyInv s -> 0 < c -> ep_unwrap s c e amt = Ok (s', o) -> EnergyInv s'.
+Proof.
+  intros I Hc H. unfold ep_unwrap in H.
+  apply bind_ok in H. destruct H as (w1 & Hw & H). clear Hw.
+  destruct (0 <? amt) eqn:Ha; [|discriminate].
+  apply bind_ok in H. destruct H as (en1 & Hl & H).
+  apply bind_ok in H. destruct H as (bal0 & Hd & H). inversion H; subst s' o; clear H.
+  pose proof (entry_fresh s c I Hc) as F.
+  eapply add_dest_loop_fresh in F; [| | eassumption]; [|unfold all_pos; simpl; rewrite Ha; reflexivity].
+  simpl in F.
+  eapply (inv_update s _ c); try reflexivity; auto; proj;
+    try (apply (inv_unb _ I)); try (apply (inv_xf _ I)).
+  - intros v Hv Hne. ledger_facts. at_holder v; lia.
+  - ledger_facts. at_holder c; try lia. eapply fresh_ext; [exact F | lia | lia].
+Qed.
+
+Lemma ep_wtransfer_inv s a b e amt s' o : EnergyInv s -> ep_wtransfer s a b e amt = Ok (s', o) -> EnergyInv s'.
+Proof.
+  intros I H. unfold ep_wtransfer in H. inv_ok H.
+  eapply (inv_frame s); try reflexivity; auto; proj; try lia;
+    try (apply (inv_unb _ I)); try (apply (inv_xf _ I)); auto.
+Qed.
+
+Lemma ep_advance_inv s d s' o : EnergyInv s -> ep_advance s d = Ok (s', o) -> EnergyInv s'.
+Proof.
+  intros I H. unfold ep_advance in H. inv_ok H. zb.
+  eapply (inv_frame s); try reflexivity; auto; proj; try lia;
+    try (apply (inv_unb _ I)); try (apply (inv_xf _ I)); auto.
+Qed.
+
+Theorem step_inv s op s' o : EnergyInv s -> step s op = Ok (s', o) -> EnergyInv s'.
+Proof.
+  intros I H. unfold step in H.
+  destruct (accounts_ok op) eqn:Ha; [|discriminate].
+  destruct op; simpl in Ha; unfold is_user in Ha; zb.
+  - eapply ep_lock_inv; [exact I | | exact H]; assumption.
+  - eapply ep_lock_inv; [exact I | | exact H]; assumption.
+  - eapply ep_extend_inv; [exact I | | exact H]; assumption.
+  - eapply ep_extend_inv; [exact I | | exact H]; assumption.
+  - eapply proj1, ep_merge_spec; [exact I | | exact H]; assumption.
+  - eapply proj1, ep_merge_spec; [exact I | | exact H]; assumption.
+  - eapply proj1, ep_reduce_spec; [exact I | | exact H]; assumption.
+  - eapply ep_unlock_inv; [exact I | | exact H]; assumption.
+  - eapply ep_unlock_early_inv; [exact I | | exact H]; assumption.
+  - eapply ep_claim_inv; [exact I | exact H].
+  - eapply ep_cancel_unbond_inv; [exact I | | exact H]; assumption.
+  - eapply ep_lock_funds_inv; [exact I | | exact H]; assumption.
+  - eapply ep_withdraw_inv; [exact I | | exact H]; assumption.
+  - eapply ep_cancel_transfer_inv; [exact I | | exact H]; assumption.
+  - eapply ep_wrap_inv; [exact I | | exact H]; assumption.
+  - eapply ep_unwrap_inv; [exact I | | exact H]; assumption.
+  - eapply ep_wtransfer_inv; [exact I | exact H].
+  - discriminate.
+  - eapply ep_advance_inv; [exact I | exact H].
+Qed.
+
+Lemma step_total_inv s op : EnergyInv s -> EnergyInv (step_total s op).
+Proof.
+  intros I. unfold step_total. destruct (step s op) as [[s' o]|] eqn:E; [|exact I].
+  eapply step_inv; eauto.
+Qed.
+
+Lemma run_inv ops : forall s, EnergyInv s -> EnergyInv (run s ops).
+Proof.
+  unfold run. induction ops as [|op t IH]; simpl; intros s I; [exact I|].
+  apply IH. apply step_total_inv. exact I.
+Qed.
+
+Lemma init_inv c epoch : valid_opts (c_opts c) = true -> 0 <= epoch -> EnergyInv (init_state c epoch).
+Proof.
+  intros Hv He. constructor; simpl; auto.
+  - intros u Hu. unfold user_ok, stored_ok. simpl. repeat split; lia.
+Qed.
+
+(** ------------------------------------------------------------------ the property's sum, over balances
+    The ledger records signed changes; the property speaks about balances.  [epochs_of l h] lists,
+    without repetition, the unlock epochs of the tokens the ledger mentions for holder [h];
+    [lget l h e] is h's balance of the token with unlock epoch e.  The sums below are the
+    property's "sum over the locked tokens attributed to the account". *)
+Definition sumf (f : Z -> Z) (es : list Z) : Z := fold_right (fun e acc => f e + acc) 0 es.
+
+Definition epochs_of (l : ledger) (h : Z) : list Z :=
+  nodup Z.eq_dec (map (fun x => snd (fst x)) (filter (fun x => fst (fst x) =? h) l)).
+
+Definition spec_energy (l : ledger) (h now : Z) : Z := sumf (fun e => lget l h e * (e - now)) (epochs_of l h).
+Definition spec_total (l : ledger) (h : Z) : Z := sumf (fun e => lget l h e) (epochs_of l h).
+
+Fixpoint gsum (g : Z -> Z) (l : ledger) (h : Z) : Z :=
+  match l with
+  | [] => 0
+  | (h', e, a) :: t => (if h' =? h then a * g e else 0) + gsum g t h
+  end.
+
+Lemma sumf_zero f es : (forall e, f e = 0) -> sumf f es = 0.
+Proof. intros H. induction es; simpl; [reflexivity | rewrite H, IHes; reflexivity]. Qed.
+
+Lemma sumf_add f1 f2 es : sumf (fun e => f1 e + f2 e) es = sumf f1 es + sumf f2 es.
+Proof. induction es; simpl; lia. Qed.
+
+Lemma sumf_ext f1 f2 es : (forall e, f1 e = f2 e) -> sumf f1 es = sumf f2 es.
+Proof. intros H. induction es; simpl; [reflexivity | rewrite H, IHes; reflexivity]. Qed.
+
+Lemma sumf_pick c g x es : NoDup es ->
+  sumf (fun e => (if x =? e then c else 0) * g e) es = if in_dec Z.eq_dec x es then c * g x else 0.
+Proof.
+  induction es as [|y t IH]; simpl; intros Hnd; [reflexivity|].
+  inversion Hnd as [|? ? Hnin Hnd']; subst. rewrite (IH Hnd').
+  destruct (Z.eq_dec y x) as [->|Hne].
+  - rewrite Z.eqb_refl. destruct (in_dec Z.eq_dec x t); [contradiction | lia].
+  - destruct (x =? y) eqn:E; zb; [congruence|]. destruct (in_dec Z.eq_dec x t); lia.
+Qed.
+
+Lemma balance_sum g l h : forall es, NoDup es ->
+  (forall h' e a, In (h', e, a) l -> h' = h -> In e es) ->
+  sumf (fun e => lget l h e * g e) es = gsum g l h.
+Proof.
+  induction l as [|[[h' e'] a'] t IH]; simpl; intros es Hnd Hcov.
+  - apply sumf_zero. intros e. reflexivity.
+  - rewrite (sumf_ext _ (fun e => (if (h' =? h) && (e' =? e) then a' else 0) * g e + lget t h e * g e))
+      by (intros e; ring).
+    rewrite sumf_add. rewrite (IH es Hnd) by (intros; eapply Hcov; eauto).
+    destruct (h' =? h) eqn:E; zb; simpl.
+    + rewrite (sumf_pick a' g e' es Hnd).
+      destruct (in_dec Z.eq_dec e' es) as [_|Hnin]; [reflexivity|].
+      exfalso. apply Hnin. eapply Hcov; [left; reflexivity | assumption].
+    + rewrite sumf_zero by (intros e; reflexivity). reflexivity.
+Qed.
+
+Lemma epochs_cover l h : forall h' e a, In (h', e, a) l -> h' = h -> In e (epochs_of l h).
+Proof.
+  intros h' e a Hin ->. unfold epochs_of. apply nodup_In. apply in_map_iff.
+  exists (h, e, a). split; [reflexivity|]. apply filter_In. split; [exact Hin|]. simpl. apply Z.eqb_refl.
+Qed.
+
+Lemma gsum_weight l h : gsum (fun e => e) l h = lweight l h.
+Proof. induction l as [|[[h' e] a] t IH]; simpl; [reflexivity | rewrite IH; reflexivity]. Qed.
+
+Lemma gsum_total l h : gsum (fun _ => 1) l h = ltotal l h.
+Proof. induction l as [|[[h' e] a] t IH]; simpl; [reflexivity | rewrite IH; destruct (h' =? h); lia]. Qed.
+
+Lemma gsum_shift l h now : gsum (fun e => e - now) l h = lweight l h - now * ltotal l h.
+Proof. induction l as [|[[h' e] a] t IH]; simpl; [lia | rewrite IH; destruct (h' =? h); lia]. Qed.
+
+Lemma spec_energy_eq l h now : spec_energy l h now = lweight l h - now * ltotal l h.
+Proof.
+  unfold spec_energy. rewrite (balance_sum (fun e => e - now) l h (epochs_of l h)).
+  - apply gsum_shift.
+  - apply NoDup_nodup.
+  - apply epochs_cover.
+Qed.
+
+Lemma spec_total_eq l h : spec_total l h = ltotal l h.
+Proof.
+  unfold spec_total. rewrite (sumf_ext _ (fun e => lget l h e * 1)) by (intros; ring).
+  rewrite (balance_sum (fun _ => 1) l h (epochs_of l h)).
+  - apply gsum_total.
+  - apply NoDup_nodup.
+  - apply epochs_cover.
+Qed.
+
+(** what the invariant says about the views *)
+Theorem inv_view s u : EnergyInv s -> 0 < u ->
+  e_amt (view_entry s u) = spec_energy (s_bal s) u (s_now s) /\
+  e_tot (view_entry s u) = spec_total (s_bal s) u /\
+  e_upd (view_entry s u) = s_now s /\
+  view_amount s u = Z.max 0 (spec_energy (s_bal s) u (s_now s)).
+Proof.
+  intros I Hu. destruct (entry_fresh s u I Hu) as (U & A & T & P).
+  unfold view_entry, view_amount, get_energy_amount. rewrite spec_energy_eq, spec_total_eq.
+  repeat split; auto. rewrite A. destruct (0 <? lweight (s_bal s) u - s_now s * ltotal (s_bal s) u) eqn:E; zb; lia.
+Qed.
+
+(** contract accounts (the escrows among them) never get an entry: whatever they hold counts for nobody *)
+Theorem inv_escrow s h : EnergyInv s -> h <= 0 ->
+  view_entry s h = mkEn 0 (s_now s) 0 /\ view_amount s h = 0.
+Proof.
+  intros I Hh. unfold view_amount, get_energy_amount, view_entry, entry_now. rewrite (inv_nonusers _ I h Hh).
+  unfold deplete, zero_energy. cbn [e_upd e_tot e_amt].
+  destruct (0 =? s_now s) eqn:E.
+  - apply Z.eqb_eq in E. rewrite <- E. split; reflexivity.
+  - cbn. split; reflexivity.
+Qed.
+
+(** an operation that leaves an account's own balances alone leaves its reported energy alone
+    (same epoch): tokens moving into, inside or out of escrow, or between other accounts, never
+    show up in a third party's entry *)
+Theorem inv_frame_view s s' u : EnergyInv s -> EnergyInv s' -> 0 < u -> s_now s' = s_now s ->
+  (forall e, lget (s_bal s') u e = lget (s_bal s) u e) ->
+  epochs_of (s_bal s') u = epochs_of (s_bal s) u ->
+  view_entry s' u = view_entry s u.
+Proof.
+  intros I I' Hu Hn Hb He.
+  destruct (inv_view s u I Hu) as (A & T & U & _). destruct (inv_view s' u I' Hu) as (A' & T' & U' & _).
+  assert (spec_energy (s_bal s') u (s_now s') = spec_energy (s_bal s) u (s_now s)).
+  { unfold spec_energy. rewrite He, Hn. apply sumf_ext. intros e. rewrite Hb. reflexivity. }
+  assert (spec_total (s_bal s') u = spec_total (s_bal s) u).
+  { unfold spec_total. rewrite He. apply sumf_ext. intros e. rewrite Hb. reflexivity. }
+  destruct (view_entry s' u), (view_entry s u). simpl in *. congruence.
+Qed.
+
+(** every lock / extend / merge / reduce that succeeds produces a token whose unlock epoch is in the
+    future (so [lock_tokens] never hands the payment back unlocked and [add_after_token_lock] never
+    drops its term) *)
+Lemma ep_lock_out s amt le dest s' o : ep_lock s amt le dest = Ok (s', o) ->
+  exists ne ma, o = [ne; ma] /\ s_now s < ne /\ 0 < ma.
+Proof. unfold ep_lock. intros H. inv_ok H. zb. eauto 6. Qed.
+
+Lemma ep_extend_out s u e amt le dest s' o : ep_extend s u e amt le dest = Ok (s', o) ->
+  exists ne ma, o = [ne; ma] /\ s_now s < ne /\ 0 < ma.
+Proof. unfold ep_extend. intros H. inv_ok H. zb. eauto 6. Qed.
+
+Definition makes_token (op : eop) : bool :=
+  match op with
+  | Lock _ _ _ _ | LockVirtual _ _ _ | Extend _ _ _ _ _ | ExtendVia _ _ _ _
+  | Merge _ _ | MergeVia _ _ | Reduce _ _ _ _ => true
+  | _ => false
+  end.
+
+Theorem new_token_in_future s op s' o : EnergyInv s -> makes_token op = true -> step s op = Ok (s', o) ->
+  exists ne ma, o = [ne; ma] /\ s_now s < ne /\ 0 < ma.
+Proof.
+  intros I Hm H. unfold step in H.
+  destruct (accounts_ok op) eqn:Ha; [|discriminate].
+  destruct op; try discriminate Hm; simpl in Ha; unfold is_user in Ha; zb.
+  - eapply ep_lock_out; eauto.
+  - eapply ep_lock_out; eauto.
+  - eapply ep_extend_out; eauto.
+  - eapply ep_extend_out; eauto.
+  - eapply proj2, ep_merge_spec; [exact I | | exact H]; assumption.
+  - eapply proj2, ep_merge_spec; [exact I | | exact H]; assumption.
+  - eapply proj2, ep_reduce_spec; [exact I | | exact H]; assumption.
+Qed.
+
+Lemma spec_meaning l u now :
+  spec_energy l u now = fold_right (fun e acc => lget l u e * (e - now) + acc) 0 (epochs_of l u) /\
+  spec_total l u = fold_right (fun e acc => lget l u e + acc) 0 (epochs_of l u) /\
+  NoDup (epochs_of l u) /\
+  (forall e, ~ In e (epochs_of l u) -> lget l u e = 0).
+Proof.
+  split; [reflexivity|]. split; [reflexivity|]. split; [apply NoDup_nodup|].
+  intros e Hnin. induction l as [|[[h' e'] a'] t IH]; simpl; [reflexivity|].
+  destruct ((h' =? u) && (e' =? e)) eqn:E.
+  - exfalso. apply Hnin. zb. subst. eapply epochs_cover; [left; reflexivity | reflexivity].
+  - rewrite IH; [reflexivity|]. intros Hin. apply Hnin. unfold epochs_of in *. apply nodup_In. apply nodup_In in Hin.
+    simpl. destruct (h' =? u); simpl; auto.
+Qed.
+
+Lemma reach_inv c epoch ops : valid_opts (c_opts c) = true -> 0 <= epoch -> EnergyInv (run (init_state c epoch) ops).
+Proof. intros. apply run_inv. apply init_inv; assumption. Qed.
+
+Lemma reach_view c epoch ops u : valid_opts (c_opts c) = true -> 0 <= epoch -> 0 < u ->
+  let s := run (init_state c epoch) ops in
+  e_amt (view_entry s u) = spec_energy (s_bal s) u (s_now s) /\
+  e_tot (view_entry s u) = spec_total (s_bal s) u /\
+  view_amount s u = Z.max 0 (spec_energy (s_bal s) u (s_now s)).
+Proof.
+  intros Hv He Hu s. destruct (inv_view s u (reach_inv c epoch ops Hv He) Hu) as (A & B & _ & D). auto.
+Qed.
+
+(** ------------------------------------------------------------------ escrow accounts hold exactly what is pending *)
+Fixpoint psum_e (ps : list (Z * Z)) (e : Z) : Z :=
+  match ps with [] => 0 | (e', a) :: t => (if e' =? e then a else 0) + psum_e t e end.
+Fixpoint usum (l : list (Z * unbond)) (e : Z) : Z :=
+  match l with [] => 0 | (_, ub) :: t => (if ub_e ub =? e then ub_locked ub else 0) + usum t e end.
+Fixpoint xsum (l : list xfer) (e : Z) : Z :=
+  match l with [] => 0 | x :: t => psum_e (xf_funds x) e + xsum t e end.
+Fixpoint lsum_e (l : ledger) (e : Z) : Z :=
+  match l with [] => 0 | (_, e', a) :: t => (if e' =? e then a else 0) + lsum_e t e end.
+
+(** locked tokens of unlock epoch [e] waiting in the unbond queue / in scheduled transfers / wrapped *)
+Definition unbonding (s : st) (e : Z) : Z := usum (s_unb s) e.
+Definition in_transfer (s : st) (e : Z) : Z := xsum (s_xf s) e.
+Definition wrapped_supply (s : st) (e : Z) : Z := lsum_e (s_wbal s) e.
+
+Definition xf_key (x : xfer) : Z * Z := (xf_recv x, xf_send x).
+
+Record EscInv (s : st) : Prop := {
+  esc_unb : forall e, lget (s_bal s) H_UNSTAKE e = unbonding s e;
+  esc_xf : forall e, lget (s_bal s) H_XFER e = in_transfer s e;
+  esc_wrap : forall e, lget (s_bal s) H_WRAP e = wrapped_supply s e;
+  esc_keys : NoDup (map xf_key (s_xf s))
+}.
+
+(** pointwise effect of ledger operations *)
+Definition lpt (l l' : ledger) (h : Z) (f : Z -> Z) : Prop :=
+  forall H e0, lget l' H e0 = lget l H e0 + (if h =? H then f e0 else 0).
+
+Lemma lpt_credit l h e a : lpt l (credit l h e a) h (fun e0 => if e =? e0 then a else 0).
+Proof. intros H e0. simpl. destruct (h =? H); simpl; [destruct (e =? e0)|]; lia. Qed.
+
+Lemma lpt_debit l h e a l' : debit l h e a = Ok l' -> lpt l l' h (fun e0 => - (if e =? e0 then a else 0)).
+Proof. unfold debit. intros X. inv_ok X. intros H e0. simpl. destruct (h =? H); simpl; [destruct (e =? e0)|]; lia. Qed.
+
+Lemma lpt_credit_all ps : forall l h, lpt l (credit_all l h ps) h (fun e0 => psum_e ps e0).
+Proof.
+  induction ps as [|[e a] t IH]; simpl; intros l h H e0.
+  - destruct (h =? H); lia.
+  - rewrite (IH (credit l h e a) h H e0). rewrite (lpt_credit l h e a H e0). destruct (h =? H); lia.
+Qed.
+
+Lemma lpt_debit_all ps : forall l h l', debit_all l h ps = Ok l' -> lpt l l' h (fun e0 => - psum_e ps e0).
+Proof.
+  induction ps as [|[e a] t IH]; simpl; intros l h l' X.
+  - inv_ok X. intros H e0. destruct (h =? H); lia.
+  - inv_ok X. intros H e0. rewrite (IH _ _ _ X H e0). rewrite (lpt_debit _ _ _ _ _ Hb H e0). destruct (h =? H); lia.
+Qed.
+
+Lemma lsum_debit l h e a l' e0 : debit l h e a = Ok l' -> lsum_e l' e0 = lsum_e l e0 - (if e =? e0 then a else 0).
+Proof. unfold debit. intros X. inv_ok X. simpl. destruct (e =? e0); lia. Qed.
+
+Lemma usum_app l1 l2 e : usum (l1 ++ l2) e = usum l1 e + usum l2 e.
+Proof. induction l1 as [|[k ub] t IH]; simpl; [lia | rewrite IH; lia]. Qed.
+
+Lemma xsum_app l1 l2 e : xsum (l1 ++ l2) e = xsum l1 e + xsum l2 e.
+Proof. induction l1 as [|x t IH]; simpl; [lia | rewrite IH; lia]. Qed.
+
+Lemma claim_scan_split l e : forall u now fuel stopped,
+  usum l e = usum (fst (claim_scan l u now fuel stopped)) e + psum_e (map ub_pay (snd (claim_scan l u now fuel stopped))) e.
+Proof.
+  induction l as [|[k ub] t IH]; simpl; intros u now fuel stopped; [reflexivity|].
+  destruct (negb (k =? u)).
+  - rewrite (IH u now fuel stopped). destruct (claim_scan t u now fuel stopped). simpl. lia.
+  - destruct stopped.
+    + rewrite (IH u now fuel true). destruct (claim_scan t u now fuel true). simpl. lia.
+    + destruct fuel as [|f].
+      * rewrite (IH u now O true). destruct (claim_scan t u now O true). simpl. lia.
+      * destruct (now <? ub_at ub).
+        -- rewrite (IH u now (S f) true). destruct (claim_scan t u now (S f) true). simpl. lia.
+        -- rewrite (IH u now f false). destruct (claim_scan t u now f false). simpl. lia.
+Qed.
+
+Lemma queue_split l c e :
+  usum l e = usum (filter (fun p => negb (fst p =? c)) l) e + psum_e (map ub_pay (queue_of l c)) e.
+Proof.
+  unfold queue_of. induction l as [|[k ub] t IH]; simpl; [reflexivity|].
+  destruct (k =? c); simpl; rewrite IH; lia.
+Qed.
+
+Lemma filter_all {A} (f : A -> bool) l : (forall x, In x l -> f x = true) -> filter f l = l.
+Proof.
+  induction l as [|a t IH]; simpl; intros H; [reflexivity|].
+  rewrite (H a (or_introl eq_refl)). rewrite IH; [reflexivity | intros; apply H; right; assumption].
+Qed.
+
+Lemma xf_match_key r sd x : xf_match r sd x = true <-> xf_key x = (r, sd).
+Proof.
+  unfold xf_match, xf_key. split.
+  - intros H. zb. congruence.
+  - intros H. inversion H. rewrite !Z.eqb_refl. reflexivity.
+Qed.
+
+Lemma xfer_remove l r sd x e : find_xf l r sd = Some x -> NoDup (map xf_key l) ->
+  xsum l e = xsum (filter (fun y => negb (xf_match r sd y)) l) e + psum_e (xf_funds x) e.
+Proof.
+  unfold find_xf. induction l as [|y t IH]; simpl; intros Hf Hnd; [discriminate|].
+  inversion Hnd as [|? ? Hnin Hnd']; subst.
+  destruct (xf_match r sd y) eqn:E; simpl.
+  - inversion Hf; subst y. rewrite filter_all; [lia|].
+    intros z Hz. apply negb_true_iff. destruct (xf_match r sd z) eqn:Ez; [|reflexivity].
+    exfalso. apply Hnin. apply xf_match_key in E. apply xf_match_key in Ez. rewrite E, <- Ez. apply in_map. exact Hz.
+  - rewrite (IH Hf Hnd'). lia.
+Qed.
+
+Lemma nodup_map_filter {A B} (k : A -> B) f l : NoDup (map k l) -> NoDup (map k (filter f l)).
+Proof.
+  induction l as [|a t IH]; simpl; intros H; [constructor|].
+  inversion H as [|? ? Hnin Hnd]; subst. destruct (f a); simpl; [|auto].
+  constructor; [|auto]. intros Hin. apply Hnin. apply in_map_iff in Hin. destruct Hin as (x & Hx & Hin).
+  apply filter_In in Hin. destruct Hin as [Hin _]. rewrite <- Hx. apply in_map. exact Hin.
+Qed.
+
+Lemma nodup_map_snoc {A B} (k : A -> B) l x : NoDup (map k l) -> ~ In (k x) (map k l) -> NoDup (map k (l ++ [x])).
+Proof.
+  induction l as [|a t IH]; simpl; intros H Hn.
+  - constructor; [intros [] | constructor].
+  - inversion H as [|? ? Hnin Hnd]; subst. constructor.
+    + rewrite map_app, in_app_iff. simpl. intros [Hin|[Heq|[]]]; [contradiction|]. apply Hn. left. symmetry. exact Heq.
+    + apply IH; [exact Hnd | intros Hin; apply Hn; right; exact Hin].
+Qed.
+
+Lemma find_xf_none l r sd : find_xf l r sd = None -> ~ In (r, sd) (map xf_key l).
+Proof.
+  unfold find_xf. intros H Hin. apply in_map_iff in Hin. destruct Hin as (x & Hk & Hin).
+  pose proof (find_none _ _ H x Hin) as Hm. apply xf_match_key in Hk. congruence.
+Qed.
+
+(** nothing escrow-related changes *)
+Lemma esc_frame s s' : EscInv s ->
+  s_unb s' = s_unb s -> s_xf s' = s_xf s -> s_wbal s' = s_wbal s ->
+  (forall H e, H <= 0 -> lget (s_bal s') H e = lget (s_bal s) H e) -> EscInv s'.
+Proof.
+  intros I Hu Hx Hw Hb. constructor; unfold unbonding, in_transfer, wrapped_supply; intros.
+  - rewrite Hu, Hb by (unfold H_UNSTAKE; lia). apply (esc_unb _ I).
+  - rewrite Hx, Hb by (unfold H_XFER; lia). apply (esc_xf _ I).
+  - rewrite Hw, Hb by (unfold H_WRAP; lia). apply (esc_wrap _ I).
+  - rewrite Hx. apply (esc_keys _ I).
+Qed.
+
+Ltac lpt_facts :=
+  repeat match goal with
+  | H : debit _ _ _ _ = Ok _ |- _ => apply lpt_debit in H
+  | H : debit_all _ _ _ = Ok _ |- _ => apply lpt_debit_all in H
+  end;
+  repeat match goal with
+  | |- context [credit ?l ?h ?e ?a] =>
+      let x := fresh "bal" in let Hx := fresh "Hc" in
+      pose proof (lpt_credit l h e a) as Hx; set (x := credit l h e a) in *; clearbody x
+  | |- context [credit_all ?l ?h ?ps] =>
+      let x := fresh "bal" in let Hx := fresh "Hc" in
+      pose proof (lpt_credit_all ps l h) as Hx; set (x := credit_all l h ps) in *; clearbody x
+  | H : context [credit ?l ?h ?e ?a] |- _ =>
+      let x := fresh "bal" in let Hx := fresh "Hc" in
+      pose proof (lpt_credit l h e a) as Hx; set (x := credit l h e a) in *; clearbody x
+  | H : context [credit_all ?l ?h ?ps] |- _ =>
+      let x := fresh "bal" in let Hx := fresh "Hc" in
+      pose proof (lpt_credit_all ps l h) as Hx; set (x := credit_all l h ps) in *; clearbody x
+  end.
+
+Ltac at_point H0 e0 :=
+  repeat match goal with
+  | H : lpt _ _ _ _ |- _ => let A := fresh "A" in pose proof (H H0 e0) as A; cbv beta in A; clear H
+  end;
+  unfold H_UNSTAKE, H_XFER, H_WRAP in *;
+  repeat match goal with
+  | H : context [?a =? ?b] |- _ =>
+      first [ is_var a | is_var b ]; let E := fresh "E" in destruct (a =? b) eqn:E
+  end; zb.
+
+Lemma lpt_lock_tokens l h e a now :
+  lpt l (lock_tokens l h e a now) h (fun e0 => if e <=? now then 0 else (if e =? e0 then a else 0)).
+Proof.
+  unfold lock_tokens. intros H e0. destruct (e <=? now).
+  - destruct (h =? H); lia.
+  - apply lpt_credit.
+Qed.
+
+Ltac lock_facts :=
+  repeat match goal with
+  | |- context [lock_tokens ?l ?h ?e ?a ?n] =>
+      let x := fresh "bal" in let Hx := fresh "Hc" in
+      pose proof (lpt_lock_tokens l h e a n) as Hx; set (x := lock_tokens l h e a n) in *; clearbody x
+  end.
+
+Ltac esc_user_op s :=
+  eapply (esc_frame s); try reflexivity; auto; proj;
+  let H0 := fresh "H0" in let e0 := fresh "e0" in let HH := fresh "HH" in
+  intros H0 e0 HH; lock_facts; lpt_facts; at_point H0 e0; lia.
+
+Lemma step_esc s op s' o : EscInv s -> step s op = Ok (s', o) -> EscInv s'.
+Proof.
+  intros I H. unfold step in H.
+  destruct (accounts_ok op) eqn:Ha; [|discriminate].
+  destruct op; simpl in Ha; unfold is_user in Ha; zb.
+  - (* Lock *) unfold ep_lock in H. inv_ok H. esc_user_op s.
+  - unfold ep_lock in H. inv_ok H. esc_user_op s.
+  - (* Extend *) unfold ep_extend in H. inv_ok H. esc_user_op s.
+  - unfold ep_extend in H. inv_ok H. esc_user_op s.
+  - (* Merge *) unfold ep_merge in H. destruct ps as [|[e0 a0] t]; [inv_ok H|]. inv_ok H. esc_user_op s.
+  - unfold ep_merge in H. destruct ps as [|[e0 a0] t]; [inv_ok H|]. inv_ok H. esc_user_op s.
+  - (* Reduce *) unfold ep_reduce in H. inv_ok H. esc_user_op s.
+  - (* Unlock *) unfold ep_unlock in H. inv_ok H. esc_user_op s.
+  - (* UnlockEarly *) unfold ep_unlock_early in H. inv_ok H.
+    constructor; unfold unbonding, in_transfer, wrapped_supply; proj; try (apply (esc_keys _ I)); intros e0.
+    + rewrite usum_app. simpl. rewrite <- (esc_unb _ I e0). lpt_facts. at_point H_UNSTAKE e0; lia.
+    + rewrite <- (esc_xf _ I e0). lpt_facts. at_point H_XFER e0; lia.
+    + rewrite <- (esc_wrap _ I e0). lpt_facts. at_point H_WRAP e0; lia.
+  - (* Claim *) unfold ep_claim in H.
+    pose proof (fun e => claim_scan_split (s_unb s) e c (s_now s) (Z.to_nat MAX_CLAIM_UNLOCKED_TOKENS) false) as Sp.
+    destruct (claim_scan (s_unb s) c (s_now s) (Z.to_nat MAX_CLAIM_UNLOCKED_TOKENS) false) as [kept got].
+    simpl in Sp. inv_ok H.
+    change (map (fun ub => (ub_e ub, ub_locked ub)) got) with (map ub_pay got) in *.
+    constructor; unfold unbonding, in_transfer, wrapped_supply; proj; try (apply (esc_keys _ I)); intros e0.
+    + pose proof (esc_unb _ I e0) as U. unfold unbonding in U. rewrite (Sp e0) in U. lpt_facts. at_point H_UNSTAKE e0; lia.
+    + rewrite <- (esc_xf _ I e0). lpt_facts. at_point H_XFER e0; lia.
+    + rewrite <- (esc_wrap _ I e0). lpt_facts. at_point H_WRAP e0; lia.
+  - (* CancelUnbond *) unfold ep_cancel_unbond in H. inv_ok H.
+    change (map (fun ub => (ub_e ub, ub_locked ub)) (queue_of (s_unb s) c)) with (map ub_pay (queue_of (s_unb s) c)) in *.
+    constructor; unfold unbonding, in_transfer, wrapped_supply; proj; try (apply (esc_keys _ I)); intros e0.
+    + pose proof (esc_unb _ I e0) as U. unfold unbonding in U. rewrite (queue_split (s_unb s) c e0) in U.
+      lpt_facts. at_point H_UNSTAKE e0; lia.
+    + rewrite <- (esc_xf _ I e0). lpt_facts. at_point H_XFER e0; lia.
+    + rewrite <- (esc_wrap _ I e0). lpt_facts. at_point H_WRAP e0; lia.
+  - (* LockFunds *) unfold ep_lock_funds in H. inv_ok H.
+    constructor; unfold unbonding, in_transfer, wrapped_supply; proj.
+    + intros e0. rewrite <- (esc_unb _ I e0). lpt_facts. at_point H_UNSTAKE e0; lia.
+    + intros e0. rewrite xsum_app. simpl. rewrite <- (esc_xf _ I e0). lpt_facts. at_point H_XFER e0; lia.
+    + intros e0. rewrite <- (esc_wrap _ I e0). lpt_facts. at_point H_WRAP e0; lia.
+    + apply nodup_map_snoc; [apply (esc_keys _ I)|]. apply find_xf_none. exact E1.
+  - (* Withdraw *) unfold ep_withdraw in H.
+    destruct (negb (on_cooldown s (aget (s_rlast s) receiver))); [|discriminate].
+    destruct (find_xf (s_xf s) receiver sender) as [x|] eqn:Hf; [|discriminate].
+    pose proof (fun e => xfer_remove _ _ _ _ e Hf (esc_keys _ I)) as Sp.
+    inv_ok H.
+    constructor; unfold unbonding, in_transfer, wrapped_supply; proj.
+    + intros e0. rewrite <- (esc_unb _ I e0). lpt_facts. at_point H_UNSTAKE e0; lia.
+    + intros e0. pose proof (esc_xf _ I e0) as U. unfold in_transfer in U. rewrite (Sp e0) in U.
+      lpt_facts. at_point H_XFER e0; lia.
+    + intros e0. rewrite <- (esc_wrap _ I e0). lpt_facts. at_point H_WRAP e0; lia.
+    + apply nodup_map_filter. apply (esc_keys _ I).
+  - (* CancelTransfer *) unfold ep_cancel_transfer in H.
+    destruct (c =? ADMIN); [|discriminate].
+    destruct (find_xf (s_xf s) receiver sender) as [x|] eqn:Hf; [|discriminate].
+    pose proof (fun e => xfer_remove _ _ _ _ e Hf (esc_keys _ I)) as Sp.
+    inv_ok H.
+    constructor; unfold unbonding, in_transfer, wrapped_supply; proj.
+    + intros e0. rewrite <- (esc_unb _ I e0). lpt_facts. at_point H_UNSTAKE e0; lia.
+    + intros e0. pose proof (esc_xf _ I e0) as U. unfold in_transfer in U. rewrite (Sp e0) in U.
+      lpt_facts. at_point H_XFER e0; lia.
+    + intros e0. rewrite <- (esc_wrap _ I e0). lpt_facts. at_point H_WRAP e0; lia.
+    + apply nodup_map_filter. apply (esc_keys _ I).
+  - (* Wrap *) unfold ep_wrap in H. inv_ok H.
+    constructor; unfold unbonding, in_transfer, wrapped_supply; proj; try (apply (esc_keys _ I)); intros e0.
+    + rewrite <- (esc_unb _ I e0). lpt_facts. at_point H_UNSTAKE e0; lia.
+    + rewrite <- (esc_xf _ I e0). lpt_facts. at_point H_XFER e0; lia.
+    + simpl. rewrite <- (esc_wrap _ I e0). lpt_facts. at_point H_WRAP e0; lia.
+  - (* Unwrap *) unfold ep_unwrap in H. inv_ok H.
+    pose proof (fun e0 => lsum_debit _ _ _ _ _ e0 Hb) as W. clear Hb.
+    constructor; unfold unbonding, in_transfer, wrapped_supply; proj; try (apply (esc_keys _ I)); intros e0.
+    + rewrite <- (esc_unb _ I e0). lpt_facts. at_point H_UNSTAKE e0; lia.
+    + rewrite <- (esc_xf _ I e0). lpt_facts. at_point H_XFER e0; lia.
+    + rewrite (W e0). rewrite <- (esc_wrap _ I e0). lpt_facts. at_point H_WRAP e0; lia.
+  - (* WTransfer *) unfold ep_wtransfer in H. inv_ok H.
+    pose proof (fun e0 => lsum_debit _ _ _ _ _ e0 Hb) as W. clear Hb.
+    constructor; unfold unbonding, in_transfer, wrapped_supply; proj; try (apply (esc_keys _ I)); intros e0;
+      try (apply (esc_unb _ I)); try (apply (esc_xf _ I)).
+    simpl. rewrite (W e0). rewrite (esc_wrap _ I e0). unfold wrapped_supply. destruct (e =? e0); lia.
+  - discriminate.
+  - (* Advance *) unfold ep_advance in H. inv_ok H. eapply (esc_frame s); try reflexivity; auto.
+Qed.
+
+Lemma init_esc c epoch : EscInv (init_state c epoch).
+Proof. constructor; simpl; intros; try reflexivity. constructor. Qed.
+
+Lemma run_esc ops : forall s, EscInv s -> EscInv (run s ops).
+Proof.
+  unfold run. induction ops as [|op t IH]; simpl; intros s I; [exact I|].
+  apply IH. unfold step_total. destruct (step s op) as [[s' o]|] eqn:E; [|exact I]. eapply step_esc; eauto.
+Qed.
+
+Lemma reach_escrow c epoch ops e : valid_opts (c_opts c) = true -> 0 <= epoch ->
+  let s := run (init_state c epoch) ops in
+  lget (s_bal s) H_UNSTAKE e = unbonding s e /\
+  lget (s_bal s) H_XFER e = in_transfer s e /\
+  lget (s_bal s) H_WRAP e = wrapped_supply s e.
+Proof.
+  intros _ _ s. pose proof (run_esc ops _ (init_esc c epoch)) as I. fold s in I.
+  split; [apply (esc_unb _ I) | split; [apply (esc_xf _ I) | apply (esc_wrap _ I)]].
+Qed.
